@@ -48,4 +48,31 @@ CHECKS = {
         "note": STD_NOTE + " core::str::from_utf8 is an environment model (validated each run against the real function and python's strict decoder).",
         "technique": "Coq proof + exhaustive small-domain correspondence",
     },
+    "C11": {
+        "text": "Coq theorems C11_hash_fn (gnu_hash = djb2 fold h*33+c mod 2^32 from 5381, every name) and C11_sound (for ANY table, symbol-table and "
+                "string-table bytes, class and spec: a returned (i, sym) is the symbol-table entry at i and its NUL-terminated name equals the query). "
+                "Completeness on well-formed tables is decided by the correspondence: built tables (bloom words 1..64, shift 0..31, symoffset, "
+                "class x spec) are queried with every present name and with absent names colliding in hash/bucket, and the implementation's "
+                "answer must equal a linear scan (and the model's).",
+        "note": STD_NOTE + " Completeness for GNU tables is not yet a theorem (see evidence 'assumptions'); the SysV analogue is proved in C12.",
+        "technique": "Coq proof (soundness, hash function) + extraction-based differential correspondence with linear-scan oracle",
+    },
+    "C12": {
+        "text": "Coq theorems C12_hash_fn (sysv_hash with u32 wrapping arithmetic = the gABI elf_hash routine over a 32-bit word, every name), "
+                "C12_sound (any table bytes: returned symbol is the entry at the returned index and carries the queried name), "
+                "C12_complete_present / C12_complete_absent (on a table satisfying the declarative well-formedness predicate sysv_wf every "
+                "present name is found and every absent name, colliding or not, gives None). Tie: hash on all strings <= 3 over a 16-symbol "
+                "alphabet + long/high-byte strings vs an independent reference; lookups on built and corrupted tables vs a linear scan.",
+        "note": STD_NOTE + " gABI elf_hash is read over a 32-bit word (the 64-bit unsigned long reading of the printed routine is a known erratum).",
+        "technique": "Coq proof (bitwise invariant, induction on the chain) + extraction-based differential correspondence",
+    },
+    "C14": {
+        "text": "Coq theorems C14_roundtrip (any buffer holding the ABI encoding of any list of notes, any alignment >= 1, either class, any "
+                "spec, iterates to exactly those notes, typed for GNU ABI-tag/build-id, name/desc = the file ranges), C14_one_record, "
+                "C14_zero_align, C14_name_str, C14_wiring (sections pass sh_addralign, segments p_align). Tie: 0..20 notes, every residue of "
+                "namesz/descsz, align in {1,2,4,8,16,random}, truncation, garbage tails, through sections, segments and the stand-alone "
+                "iterator, against an independent python reference walk.",
+        "note": STD_NOTE + " from_utf8 is an environment model (C15).",
+        "technique": "Coq proof (induction over the note list) + extraction-based differential correspondence",
+    },
 }
